@@ -132,8 +132,8 @@ type Disk struct {
 	Closed bool
 	// ReadsBeforeWrite records addresses read before being written by this
 	// instance (used to validate the crash-image canonicalisation).
-	TrackReads bool
-	FirstReads map[uint64]bool
+	TrackReads                 bool
+	FirstReads                 map[uint64]bool
 	NReads, NWrites, NBarriers int
 }
 
